@@ -68,7 +68,7 @@ def obligations(tier):
     obls.append(Obl(
         "l0_substdio_in", "sin.c",
         repo=["substdi.c", "byte_copy.c", "byte_cr.c"],
-        grid=[{"BN": n, "OP": op} for op in (0, 1) for n in ((1, 2, 3, 4, 6) if quick else range(1, 9))],
+        grid=[{"BN": n, "OP": op} for op in (0, 1) for n in range(1, 9)],
         unwind=lambda p: dict({"oneread": 4, "rd": 6, "byte_cr.c": p["BN"] // 4 + 2},
                               **({"byte_copy.c": 3} if p["OP"] == 0 else {})),
         unwind_default=lambda p: p["BN"] + 6, timeout=600,
@@ -80,4 +80,72 @@ def obligations(tier):
         claim="real substdio_get / substdio_feed+PEEK+SEEK from any valid state deliver exactly the next bytes of (buffered ++ source), "
               "0 only at EOF, -1 only after a hard error; the post-state is valid and holds exactly the undelivered rest (inductive)",
         expect_witnesses=sin_wit))
+    obls.append(Obl(
+        "l0_substdio_copy", "scopy.c",
+        repo=["substdio_copy.c", "substdi.c", "substdo.c", "byte_copy.c", "byte_cr.c"],
+        grid=[{"BI": i, "BO": o} for i in (1, 2) for o in (1, 2)] if quick else
+             [{"BI": i, "BO": o} for i in (1, 2, 3) for o in (1, 2, 3)],
+        unwind=lambda p: {"substdio_copy": 3 + 3, "oneread": 3, "allwrite": max(p["BI"], p["BO"]) + 2, "substdio_put": 2,
+                          "rd": 4, "wr": max(p["BI"], p["BO"]) + 1, "byte_copy.c": 3, "byte_cr.c": 3},
+        unwind_default=20, timeout=900,
+        functions=["substdio_copy.c:substdio_copy", "substdi.c:substdio_feed", "substdo.c:substdio_put", "substdo.c:substdio_flush"],
+        stubs=["read/write ops: symbolic tapes (short transfers, one EINTR, EOF, hard errors)"],
+        assumes=["input buffer BI, output buffer BO bytes (grid), any valid fill and contents; source 0..3 bytes; at most one EINTR"],
+        outside=["larger buffers / sources"],
+        claim="real substdio_copy: sink ++ bytes buffered in ssout == old pending ++ whole input stream on 0; -2 / -3 only after a hard "
+              "read / write error, with a prefix written",
+        expect_witnesses=["copied", "copied_all_full_buffers", "copied_with_eintr", "read_error", "write_error", "write_error_after_prefix"]))
+    # ---------------------------------------------------------------- layer 0 (c): getln
+    obls.append(Obl(
+        "l0_getln", "gl.c",
+        repo=["getln.c", "getln2.c", "substdi.c", "byte_chr.c", "byte_copy.c", "byte_cr.c",
+              "stralloc_catb.c", "stralloc_opyb.c"],
+        grid=[{"BN": n} for n in ((1, 2, 3) if quick else (1, 2, 3, 4))],
+        unwind=lambda p: {"getln2": 4 + 3, "oneread": 3, "rd": 5, "byte_chr": p["BN"] // 4 + 2,
+                          "byte_copy.c": (p["BN"] + 4) // 4 + 2, "byte_cr.c": 3},
+        unwind_default=lambda p: p["BN"] + 4 + 6, timeout=900,
+        functions=["getln.c:getln", "getln2.c:getln2", "substdi.c:substdio_feed", "substdi.c:substdio_get",
+                   "stralloc_catb.c:stralloc_catb",
+                   "stralloc_opyb.c:stralloc_copyb", "byte_chr.c:byte_chr"],
+        stubs=["stralloc_ready/readyplus: one exactly-sized buffer, any request may be refused, extent asked for is recorded "
+               "(the real stralloc_eady.c arithmetic is obligation alloc_arith)",
+               "op (read): symbolic tape (short reads, one EINTR, EOF, hard error)"],
+        assumes=["stream buffer BN bytes (grid), any valid fill; source 0..4 bytes; any separator byte; stralloc unallocated or "
+                 "allocated with old contents"],
+        outside=["lines longer than BN+4 bytes; larger stream buffers"],
+        claim="real getln/getln2 over the real substdio and stralloc: returns exactly the bytes up to and including the first sep "
+              "(match 1), or the rest of the input at EOF (match 0), leaves the rest of the stream for the next call; -1 only after a "
+              "hard read error or a refused allocation - the contract of lib/ideal_getln.c",
+        expect_witnesses=lambda p: ["line", "empty_line", "partial_line_at_eof", "eof", "grew", "read_error", "alloc_refused",
+                                    "line_across_refills_rest_kept"]))
+    # ---------------------------------------------------------------- (d) allocator arithmetic
+    kinds = {0: ("stralloc_readyplus", ["stralloc_eady.c"]), 1: ("stralloc_ready", ["stralloc_eady.c"]),
+             2: ("prioq_readyplus", ["prioq.c"]), 3: ("token822_readyplus", ["token822.c"]),
+             4: ("ipalloc_readyplus", ["ipalloc.c"]),
+             5: ("stralloc_catb", ["stralloc_catb.c", "stralloc_opyb.c", "stralloc_eady.c", "byte_copy.c"]),
+             6: ("stralloc_copyb", ["stralloc_opyb.c", "stralloc_eady.c", "byte_copy.c"]),
+             7: ("stralloc_append", ["stralloc_pend.c", "stralloc_eady.c"]),
+             8: ("quote.c:doit", ["stralloc_eady.c"])}
+    wit = {0: ["grown", "fresh", "already_big_enough", "refused_len_plus_n_wraps", "refused_size_wraps", "refused_by_allocator"],
+           5: ["grown_and_copied", "fits_without_growth", "fresh", "refused_n_plus_1_wraps", "refused_len_plus_n_wraps", "refused_by_allocator"],
+           6: ["fits_without_growth", "fresh", "refused_n_plus_1_wraps", "refused_by_allocator"],
+           7: ["grown_and_copied", "fits_without_growth", "fresh", "refused_by_allocator"],
+           8: ["quoted", "all_special_max_len", "fits_without_growth", "refused_2len_plus_2_wraps", "refused_by_allocator"]}
+    wit[1] = [w for w in wit[0] if w != "refused_len_plus_n_wraps"]       # ready() adds nothing to n
+    wit[2] = wit[3] = wit[4] = wit[0]
+    for k, (fn, units) in kinds.items():
+        obls.append(Obl(
+            "alloc_arith_%s" % fn.replace("quote.c:", "quote_"), "alloc.c",
+            progs=[Prog("quote.c")] if k == 8 else [],
+            repo=units, sysrename=["malloc", "realloc", "free"], defines={"KIND": k},
+            unwind={"vf_realloc": 14, "ta_find": 7, "byte_copy": 11} if k in (5, 6) else
+                   {"vf_realloc": 14, "ta_find": 7, "doit": 25} if k == 8 else {"vf_realloc": 14, "ta_find": 7},
+            unwind_default=50, timeout=600,
+            functions=[fn if ":" in fn else "%s:%s" % (units[0], fn), "gen_allocdefs.h:GEN_ALLOC_readyplus"],
+            stubs=["malloc/realloc/free: tiny_alloc.h - exactly-sized objects, requests above the pool size or on demand are refused, sizes recorded"],
+            assumes=["ANY 32-bit len, a, n (len <= a if allocated); users of readyplus start from an honest stralloc of <= 12 bytes"],
+            outside=["objects larger than the pool (64..4096 bytes): the arithmetic is proved for all values, the copy loops only for what fits"],
+            claim="%s: returns 0 or leaves a >= len+n in true arithmetic; the size passed to malloc/realloc equals a*sizeof(type) "
+                  "without 32-bit wrap; contents preserved/copied exactly; failure leaves the object unchanged" % fn,
+            expect_witnesses=wit[k]))
     return obls
